@@ -510,6 +510,13 @@ C04SupplyStep(s, s2) ==
 (* every live order's claim (unspent offer + fee reserve) is in the pair escrow; an empty book leaves nothing *)
 C07EscrowCovers(s)   == \A p \in s.pairs : \A d \in {p.base, p.quote} : s.bal[EscT[p.app][p.id]][d] >= OwedOf(s, p, d)
 C07NothingRemains(s) == \A p \in s.pairs : LiveOf(s, p) = {} => \A d \in {p.base, p.quote} : s.bal[EscT[p.app][p.id]][d] = 0
+(* a successful cancel-all ends every order of the signer (in the named pairs, or in all pairs when none is named) *)
+(* that is outside its placement batch: "can always be cancelled by its owner", cancel-all being one of the ways   *)
+(* of ending; the refund is demanded by the owner ledger below                                                    *)
+CancelAllTargets(s, a) == {o \in s.orders : /\ o.app = a.app /\ o.owner = a.u /\ Live(o)
+                                            /\ (a.pairs = <<>> \/ o.pair \in Range(a.pairs))
+                                            /\ o.batch # PairOf(s, o.app, o.pair).batch}
+C07CancelAllEnds(s, s2, a) == \A o \in CancelAllTargets(s, a) : HasOrder(s2, o.app, o.pair, o.id) /\ OrderOf(s2, o.app, o.pair, o.id).status = "X"
 (* settlement of one order over one step, as the statement puts it: taken = offer + reserve at placement;  *)
 (* returned = demand coins of fills, and at termination the unspent offer + the reserve not attributable   *)
 (* to the executed portion                                                                                 *)
